@@ -68,6 +68,16 @@ def _py_region(ctx, name):
     return (inits, region), allocs, rets, fn
 
 
+def _py_raw_region(ctx, name):
+    """the same region with the individual output stores and the row counter kept (for the unit-wise symbolic comparison)"""
+    fn = ctx.src.func(PYFILE, name)
+    keep = [s for s in fn.body if not (isinstance(s, ast.Expr) and isinstance(s.value, ast.Constant))
+            and not (isinstance(s, ast.Assign) and isinstance(s.value, ast.Call) and dotted(s.value.func) in ("np.empty", "np.zeros"))
+            and not isinstance(s, ast.Return)]
+    ir = R.PyLower(fn, group=False).block(keep)
+    return _split(ir, f"py {name}")
+
+
 def astm_reference(with_offsets):
     """ASTM E1049-85 section 5.4.4 (rainflow counting), steps 1-6, transcribed into the IR.
        S = stack of reversals not yet counted (index j = top), X = range under consideration, Y = previous range.
